@@ -605,6 +605,11 @@ func inlineOneCall(module *Module, caller *Function, call StmtCall, callee *Func
 	inlinedBody = rewriteReturnsForInline(inlinedBody, retSlot, caller.Expressions, hasEarly)
 	if hasEarly {
 		// Wrap in loop { <body> } so break statements exit to after the call.
+		// A body that can fall off its end (a function without result whose last
+		// statement is not a return) must leave the loop there too.
+		if n := len(inlinedBody); n == 0 || !isBreakStmt(inlinedBody[n-1]) {
+			inlinedBody = append(inlinedBody, Statement{Kind: StmtBreak{}})
+		}
 		inlinedBody = Block{Statement{Kind: StmtLoop{
 			Body:       inlinedBody,
 			Continuing: Block{},
@@ -795,6 +800,11 @@ func blockContainsReturn(block Block) bool {
 		}
 	}
 	return false
+}
+
+func isBreakStmt(s Statement) bool {
+	_, ok := s.Kind.(StmtBreak)
+	return ok
 }
 
 // rewriteReturnsForInline walks a freshly inlined body and replaces StmtReturn
